@@ -141,3 +141,43 @@ Section D.
   Theorem finished_is_final s l t : finished s = Some t -> step c s l = s.
   Proof. intros H. unfold step. now rewrite H. Qed.
 End D.
+
+(* ---------- what the list can hold: never more spas than the consumer has taken datagrams (finding K14) ---------- *)
+Definition is_consume (l : label) : nat := match l with Consume => 1%nat | _ => 0%nat end.
+Fixpoint consumes (ls : list label) : nat := match ls with [] => 0%nat | l :: r => (is_consume l + consumes r)%nat end.
+
+Lemma on_discovered_len c s r : (List.length (spas (on_discovered c s r)) <= S (List.length (spas s)))%nat.
+Proof.
+  unfold on_discovered. destruct (mem (r_id r) (seen s)); [lia|].
+  destruct (f_id c) as [w|].
+  - destruct (negb (w =? r_id r)); cbn [spas]; [lia|]. rewrite app_length. cbn. lia.
+  - cbn [spas]. rewrite app_length. cbn. lia.
+Qed.
+
+Lemma step_len c s l : (List.length (spas (step c s l)) <= List.length (spas s) + is_consume l)%nat.
+Proof.
+  unfold step. destruct (finished s); [lia|].
+  destruct l as [r| | |age]; cbn [is_consume spas]; try lia.
+  - destruct (queue s) as [|r q]; [lia|]. pose proof (on_discovered_len c (mkD q (seen s) (spas s) (found s) (pending s) None) r) as H. cbn [spas] in H. lia.
+  - destruct (negb (age <? t_timeout c)); cbn [spas]; [lia|].
+    destruct ((t_initial c <? age) && negb (Nat.eqb (List.length (spas s)) 0)); cbn [spas]; [lia|].
+    destruct (found s); cbn [spas]; lia.
+Qed.
+
+Lemma run_len c ls : forall s, (List.length (spas (run c s ls)) <= List.length (spas s) + consumes ls)%nat.
+Proof.
+  unfold run. induction ls as [|l r IH]; intros s; cbn [fold_left consumes]; [lia|].
+  specialize (IH (step c s l)). pose proof (step_len c s l). lia.
+Qed.
+
+(* whatever arrives: the list never holds more spas than the consumer has taken datagrams *)
+Theorem listed_le_consumed c ls : (List.length (spas (run c init ls)) <= consumes ls)%nat.
+Proof. pose proof (run_len c ls init) as H. cbn [init spas List.length] in H. lia. Qed.
+
+(* K14: three spas answer at once, the consumer has taken one datagram when the initial wait is over: discover() returns with one spa
+   listed and the replies of the two others still in the receive queue *)
+Example k14_shape :
+  let s := run (mkCfg None false 4000 10000) init [Arrive (mkR 1 1 1); Arrive (mkR 2 2 2); Arrive (mkR 3 3 3); Consume; MainPoll 4001] in
+  finished s = Some 4001 /\ List.length (spas s) = 1%nat /\ map r_id (queue s) = [2; 3].
+Proof. vm_compute. repeat split; reflexivity. Qed.
+
